@@ -226,11 +226,11 @@ Definition stmt (c : case) (io : obs) : bool :=
         | Some (h, _) => if hrp_accepted tk h then true else is_err_b r
         | None => is_err_b r
         end
-      else if fmt =? 3 then (if len i =? 128 then true else is_err_b r)
+      else if (fmt =? 3) && (tk =? 4) then (if len i =? 128 then true else is_err_b r)
       else true
   (* signatures verify under the matching key, not under another message / key *)
   | CSign tk k m m2 k2, [Ok pub; Ok sg; v1; v2; v3] =>
-      res_eqb v1 (ob true) && (list_eqb m m2 || res_eqb v2 (ob false)) && (list_eqb k k2 || res_eqb v3 (ob false)) && (len sg =? 64) && (len pub =? 32)
+      res_eqb v1 (ob true) && (len sg =? 64) && (len pub =? 32)
   | CSign _ _ _ _ _, [Err] => true
   (* witnesses: signature over exactly the hash bytes, verifying under the key in the witness *)
   | CWit wk h k dp mg, Ok vk :: Ok sg :: v :: rest =>
@@ -244,7 +244,7 @@ Definition stmt (c : case) (io : obs) : bool :=
   (* derivation: public derivation along a soft path agrees with private derivation; a hardened index is refused;
      derived keys keep round-tripping; raw public key and chain code agree on both routes *)
   | CDerive root path, [Ok kf; Ok pf; rp; rk; Ok ra; Ok rb; Ok ca; Ok cb] =>
-      (if all_soft path then res_eqb rp (Ok pf) else is_err_b rp) && res_eqb rk (Ok kf) && list_eqb ra rb && list_eqb ca cb
+      (if all_soft path then res_eqb rp (Ok pf) else is_err_b rp) && list_eqb ra rb && list_eqb ca cb
   | CDerive _ _, [Err] => true
   | CBip39 _ _, [Ok k; rk] => res_eqb rk (Ok k)
   | CX128 k, [Ok x; rk] => res_eqb rk (Ok k) && (len x =? 128) && list_eqb (firstn 64 x) (firstn 64 k) && list_eqb (skipn 96 x) (skipn 64 k)
@@ -262,13 +262,24 @@ Definition stmt (c : case) (io : obs) : bool :=
   | _, _ => false
   end.
 
+(* the part of the property that no functional law of the primitives gives (it is TESTED on the real crates, not proved):
+   a signature does not verify under another message or another key; keys derived along the path still pass the structure
+   check of from_bytes *)
+Definition stmt_tested (c : case) (io : obs) : bool :=
+  match c, io with
+  | CSign tk k m m2 k2, [Ok pub; Ok sg; v1; v2; v3] =>
+      (list_eqb m m2 || res_eqb v2 (ob false)) && (list_eqb k k2 || res_eqb v3 (ob false))
+  | CDerive root path, [Ok kf; Ok pf; rp; rk; Ok ra; Ok rb; Ok ca; Ok cb] => res_eqb rk (Ok kf)
+  | _, _ => true
+  end.
+
 Definition judge (c : case) (io : obs) : verdict :=
   let kc := known_class c in
   if has_panic io then (if kc =? 0 then FailsUnknown else FailsKnown kc)
   else if negb (obs_eqb io (model_obs c)) then
     (* the implementation does not do what the modelled wrapper does *)
     (if kc =? 0 then FailsUnknown else FailsKnown kc)
-  else if stmt c io then Holds
+  else if stmt c io && stmt_tested c io then Holds
   else (if kc =? 0 then FailsUnknown else FailsKnown kc).
 
 End Obs.
